@@ -53,7 +53,8 @@ META = dict(
     files=['dadi/Spectrum_mod.py', 'dadi/Numerics.py', 'dadi/Inference.py'],
     bounds=dict(
         quick='fold/unfold/misid laws: shapes (2) (3) (4) (5) (6) (7) (2,2) (2,3) (3,2) (3,3) (2,4) (3,4) (2,2,2) '
-              '(2,2,3) (3,2,2) (2,2,2,2) (2,3,2,2) (2,2,2,2,2) (total sample size N=1..7, even and odd); all 2^E mask '
+              '(2,2,3) (3,2,2) (2,2,2,2) (2,3,2,2) (2,2,2,2,2) (total sample size N=1..7, even and odd), plus large sample '
+              'sizes (130) (258) (3,130) (131,2) with masks {none, corners} only; all 2^E mask '
               'patterns for E<=8 entries, otherwise {no mask, both corners} x {nothing, every single entry, every '
               'pair of entries}; unfold of directly constructed folded spectra: all patterns on the non-structural '
               'entries by the same rule; operators (add sub mul truediv pow, reflected, in-place, neg pos abs copy; '
@@ -931,6 +932,16 @@ def units(tier, seed):
         nlow = sum(1 for i in np.ndindex(*shape) if 2 * sum(i) <= N)
         upats = _patterns(nlow, full_limit, pair_limit)
         add('unfold', shape, make_unfold_body, upats, chunk * 2, min_ob=nlow)
+
+    # ---- large sample sizes (entry-index arithmetic past 127 / 255 chromosomes per axis): two mask patterns only
+    for shape in ([(130,), (258,), (3, 130), (131, 2)] + ([(300,), (129, 2, 2), (2, 258)] if thorough else [])):
+        E = int(np.prod(shape))
+        big = [0, 1 | (1 << (E - 1))]
+        add('fold', shape, make_fold_body, big, 2, extra='largeN')
+        add('misid', shape, make_misid_body, big, 2, extra='largeN')
+        N = sum(s - 1 for s in shape)
+        nlow = sum(1 for i in np.ndindex(*shape) if 2 * sum(i) <= N)
+        add('unfold', shape, make_unfold_body, [0], 2, extra='largeN', min_ob=nlow)
 
     # ---- operators
     oshapes = [(3,), (4,), (2, 3), (3, 3), (2, 2, 2), (2, 2, 2, 2), (2, 2, 2, 2, 2)]
